@@ -185,6 +185,12 @@ func (s *server) onAccept(conn Conn) {
 	if !nconn.IsActive() {
 		s.connections.Delete(fd)
 	}
+	// the server may have been shut down while this connection was being accepted:
+	// Shutdown did not see it, so it has to be closed here.
+	if atomic.LoadInt32(&s.closed) != 0 {
+		nconn.Close()
+		return
+	}
 
 	// trigger onConnect asynchronously
 	nconn.onConnect()
